@@ -136,6 +136,25 @@ def c_language(rng, W):
             'pol_ml': ml, 'probe_ml': rng.random() < 0.5}
 
 
+def c_babel_table(rng, W):
+    # state named in the property: babel's module-level name table
+    a, b = W.word(), W.word()
+    x = rng.choice(['naustrian', 'klingon', 'latin', 'swissgerman', 'nynorsk'])
+    pol = rng.choice([
+        'Text \\foreignlanguage{%s}{ein zwei drei vier} Ende.\n' % x,
+        'Text.\n\\selectlanguage{%s}\nMehr Text.\n' % x,
+        '\\begin{otherlanguage}{%s}\nText.\n\\end{otherlanguage}\n' % x,
+    ])
+    known = rng.choice(['ngerman', 'russian', 'french'])
+    probe = rng.choice([
+        '\\usepackage[%s,%s]{babel}\n%s "a $x$ %s.\n' % (known, x, a, b),
+        '\\documentclass[%s,%s]{article}\n\\usepackage{babel}\n%s $x$ %s.\n'
+        % (known, x, a, b),
+    ])
+    return {'name': 'babel_name_table', 'pol': pol, 'probe': probe,
+            'pol_ml': rng.random() < 0.7, 'probe_ml': rng.random() < 0.7}
+
+
 def c_lang_option(rng, W):
     a, b = W.word(), W.word()
     return {'name': 'language_option',
@@ -261,7 +280,7 @@ def c_recovery(rng, W):
 
 CARRIERS = [c_newcommand, c_newcommand, c_renewcommand, c_newtheorem, c_package,
             c_package, c_cleveref, c_docclass, c_language, c_language,
-            c_lang_option, c_rotation, c_rotation, c_items, c_glossary,
+            c_lang_option, c_babel_table, c_babel_table, c_rotation, c_rotation, c_items, c_glossary,
             c_glossary, c_flows, c_unknowns, c_option_flag, c_option_flag,
             c_modparms, c_recovery]
 
@@ -542,7 +561,7 @@ def gen_server_plan(rng, idx):
     if rng.random() < 0.15 and len(out) > 2:
         i = rng.randrange(len(out) - 1)
         out[i], out[i + 1] = out[i + 1], out[i]          # out of order
-    peer = {'flag_regex': r'q[^\Wqz\d_]+z', 'flag_limit': 6,
+    peer = {'flag_regex': docgen.WORD_RE, 'flag_limit': 6,
             'nonascii': True, 'http': http}
     return {'system': 'server', 'kind': 'shell', 'argv': argv, 'files': files,
             'requests': out[:12], 'peer': peer, 'names': [], '_index': idx}
